@@ -25,6 +25,8 @@ type Batch struct {
 	Pkgs   []string // package names (directories under gen/)
 	Failed map[string]string
 	Bin    string
+	Env    []string // extra environment for Run
+	Stderr string   // stderr of the last Run
 }
 
 // PkgDir is where the generator must write package name of this batch.
@@ -65,7 +67,10 @@ var rePkgErr = regexp.MustCompile(`gen/(p[0-9a-z_]+)/`)
 
 // Build writes go.mod/main.go for the packages already generated under root/gen and builds the binary.
 // Packages that fail to compile are dropped (reported in Failed) and the rest is rebuilt.
-func Build(root string, pkgs []string) (*Batch, error) {
+func Build(root string, pkgs []string) (*Batch, error) { return BuildWith(root, pkgs, false) }
+
+// BuildWith: race=true builds with the race detector (needs cgo).
+func BuildWith(root string, pkgs []string, race bool) (*Batch, error) {
 	b := &Batch{Dir: root, Failed: map[string]string{}}
 	gomod := "module batch\n\ngo 1.23\n\nrequire verif v0.0.0\n\nrequire github.com/vkd/goag v0.0.0\n\nreplace verif => /verif\n\nreplace github.com/vkd/goag => /repo\n"
 	if err := os.WriteFile(filepath.Join(root, "go.mod"), []byte(gomod), 0o644); err != nil {
@@ -87,9 +92,15 @@ func Build(root string, pkgs []string) (*Batch, error) {
 			return nil, err
 		}
 		bin := filepath.Join(root, "batch.bin")
-		cmd := exec.Command("go", "build", "-gcflags=all=-N -l", "-o", bin, ".")
+		args := []string{"build", "-o", bin}
+		env := append(os.Environ(), "GOCACHE="+runCache(root), "GOFLAGS=-mod=mod")
+		if race {
+			args = append(args, "-race")
+			env = append(env, "CGO_ENABLED=1")
+		}
+		cmd := exec.Command("go", append(args, ".")...)
 		cmd.Dir = root
-		cmd.Env = append(os.Environ(), "GOCACHE="+runCache(root), "GOFLAGS=-mod=mod")
+		cmd.Env = env
 		out, err := cmd.CombinedOutput()
 		if err == nil {
 			b.Bin = bin
@@ -136,10 +147,13 @@ func (b *Batch) Run(jobs []drv.Job) (map[string]*drv.Result, error) {
 	w.Flush()
 	f.Close()
 	cmd := exec.Command(b.Bin, jf, rf)
+	cmd.Env = append(os.Environ(), b.Env...)
 	var stderr bytes.Buffer
 	cmd.Stderr = &stderr
 	cmd.Stdout = &stderr
-	if err := cmd.Run(); err != nil {
+	err = cmd.Run()
+	b.Stderr = stderr.String()
+	if err != nil {
 		return nil, fmt.Errorf("batch run: %v: %s", err, tailStr(stderr.String(), 3000))
 	}
 	out := map[string]*drv.Result{}
